@@ -25,11 +25,13 @@
 (*      list's file only if the whole body parsed and its checksum is new  *)
 (*   2. copy count/checksum back, for the lists that really changed        *)
 (*   3. rebuild the engines from the files, if any list changed            *)
-(* Next to the state the statement requires (st), After also computes the  *)
-(* state today's code reaches in phase 3 (asis, see NetErr below).  The    *)
-(* property is stated and checked for st; FilterRefresh.asis.cfg lets TLC  *)
-(* show that following asis violates it; the conformance checks use asis   *)
-(* only to CLASSIFY a disagreement as that one known deviation.            *)
+(* st is the state the statement requires and the code reaches (engines    *)
+(* rebuilt whenever any list was replaced, also when other lists failed).  *)
+(* NEGATIVE CONTROL: After also computes `asis`, the state reached by the  *)
+(* code before fix 9116a9d, which returned before the rebuild when every   *)
+(* list of one kind had failed.  It is used by FilterRefresh.asis.cfg      *)
+(* only, where TLC must find the violation of FailureIsNoOp; no            *)
+(* conformance check refers to it.                                         *)
 (***************************************************************************)
 EXTENDS RuleListCore
 
@@ -76,22 +78,25 @@ WellFormed(b) ==
     \* with Content-Length framing a cut after the whole body is no cut
     /\ b.k = "cutAtLineBoundary" /\ b.arg = "cl" => b.at < Len(b.t)
 
+\* The parser policy of this installation (RuleListCore): cfg.cosm.
+Pol(cfg) == Uniform(cfg.cosm)
+
 \* UndetectableCut: a body that ends early at a line boundary without any
 \* framing that would reveal it is, on the wire, a shorter valid list.  The
 \* statement covers detectable failures only; this is a SUCCESS with the
 \* text received.
-UndetectableCut(b) == Admissible(SubSeq(b.t, 1, b.at))
+UndetectableCut(cfg, b) == Admissible(SubSeq(b.t, 1, b.at), Pol(cfg))
 
 \* The admissible parse outcomes of one request.
-Outcomes(b) ==
-    IF b.k = "ok" THEN Admissible(b.t)
-    ELSE IF b.k = "unframedCut" THEN UndetectableCut(b)
+Outcomes(cfg, b) ==
+    IF b.k = "ok" THEN Admissible(b.t, Pol(cfg))
+    ELSE IF b.k = "unframedCut" THEN UndetectableCut(cfg, b)
     ELSE {Fail}
 
-MustFail(b) == Outcomes(b) = {Fail}
+MustFail(cfg, b) == Outcomes(cfg, b) = {Fail}
 
 ------------------------------------------------------------------------------
-\* cfg = [enabled : Lists -> BOOLEAN, src : Lists -> {"http", "file"}]
+\* cfg = [enabled : Lists -> BOOLEAN, src : Lists -> {"http", "file"}, cosm : BOOLEAN]
 \* act = [a |-> "refresh", mode |-> "forced" | "sched", kind, due]
 \*   forced: the lists of one kind (POST /control/filtering/refresh)
 \*   sched : the lists of both kinds that are due (periodic refresh)
@@ -111,9 +116,10 @@ AfterWith(cfg, S, sel, ch, newsum) ==
         \* phase 2
         cnt2  == [l \in Lists |-> IF l \in chg THEN Count(ch[l].rules) ELSE S.count[l]]
         sum2  == [l \in Lists |-> IF l \in chg THEN newsum[l] ELSE S.sum[l]]
-        \* phase 3.  NetErr: every selected list of one kind failed.  Today's
-        \* code returns early in that case, before the rebuild, although
-        \* lists of the other kind may have been replaced in phases 1 and 2.
+        \* phase 3: rebuild if anything was replaced.  NetErr: every selected
+        \* list of one kind failed; the code before fix 9116a9d returned early
+        \* in that case although lists of the other kind may have been replaced.
+        \* (negative control only)
         NetErr  == \E k \in {"block", "allow"} :
                        LET sk == {l \in sel : KindOf(l) = k} IN
                        sk # {} /\ \A l \in sk : ~ch[l].ok
@@ -141,12 +147,15 @@ ResultsOf(cfg, S, sel, oc) ==
 Results(cfg, S, act, script) ==
     UNION {ResultsOf(cfg, S, sel, oc) :
               sel \in {Selected(cfg, act)},
-              oc \in {[l \in Selected(cfg, act) |-> Outcomes(script[l])]}}
+              oc \in {[l \in Selected(cfg, act) |-> Outcomes(cfg, script[l])]}}
 
 \* Restart over the same data directory: count and checksum are recomputed
-\* by parsing the stored file, the engines are rebuilt from the files.
+\* by parsing the stored file - from the parser's initial mode, the stored
+\* form has no title line -, the engines are rebuilt from the files.  The
+\* statement ("re-parse yields the same rule count and checksum") demands
+\* Restarted(cfg, S) = S; FilterRefresh asserts it on every Restart.
 Restarted(cfg, S) ==
-    LET P(l)      == Parse(Normal(S.file[l].rules))
+    LET P(l)      == Parse(Normal(S.file[l].rules), Pol(cfg))
         loaded(l) == cfg.enabled[l] /\ S.file[l].ex /\ P(l).ok
     IN [file  |-> S.file,
         count |-> [l \in Lists |-> IF loaded(l) THEN Count(P(l).rules) ELSE 0],
@@ -157,29 +166,29 @@ Restarted(cfg, S) ==
 \* The statement, as predicates on one step  pre --refresh(sel, script)--> post
 \* with rew = the set of lists whose file was replaced.
 
-FailureIsNoOp(pre, sel, script, post, rew) ==
+FailureIsNoOp(cfg, pre, sel, script, post, rew) ==
     \A l \in Lists :
-        (l \notin sel \/ MustFail(script[l])) =>
+        (l \notin sel \/ MustFail(cfg, script[l])) =>
             /\ post.file[l]  = pre.file[l]
             /\ post.count[l] = pre.count[l]
             /\ post.eng[l]   = pre.eng[l]
             /\ l \notin rew
 
-UnchangedChecksumNotRewritten(pre, sel, script, post, rew) ==
+UnchangedChecksumNotRewritten(cfg, pre, sel, script, post, rew) ==
     \A l \in sel :
-        (\A o \in Outcomes(script[l]) : o.ok => Sum(o.rules) = pre.sum[l]) =>
+        (\A o \in Outcomes(cfg, script[l]) : o.ok => Sum(o.rules) = pre.sum[l]) =>
             l \notin rew /\ post.file[l] = pre.file[l]
 
 SuccessStoresNormalForm(cfg, pre, sel, script, post, rew) ==
     \A l \in rew :
         /\ l \in sel
-        /\ \E o \in Outcomes(script[l]) :
+        /\ \E o \in Outcomes(cfg, script[l]) :
              /\ o.ok /\ Sum(o.rules) # pre.sum[l]
              /\ post.file[l]  = FileOf(o.rules)
              /\ post.count[l] = Count(o.rules)
              /\ post.eng[l]   = InForce(cfg, post.file, l)
         /\ Clean(post.file[l].rules)
-        /\ Parse(Normal(post.file[l].rules)) = [ok |-> TRUE, rules |-> post.file[l].rules, why |-> "ok"]
+        /\ Parse(Normal(post.file[l].rules), Pol(cfg)) = [ok |-> TRUE, rules |-> post.file[l].rules, why |-> "ok"]
 
 \* What every state at rest looks like when the above holds from S0 on.
 Coherent(cfg, S) ==
